@@ -137,6 +137,13 @@ func (cs *State) catchupReplay(csHeight int64) error {
 		// the block, or the WAL is new). Write the marker now: without it the messages of
 		// csHeight logged from here on (including our own signed votes) could not be
 		// replayed after another crash, and the validator would be unable to sign again.
+		//
+		// Never append behind a damaged tail (e.g. the torn write of this very marker):
+		// nothing written after it could be read back. The tolerant search above skipped
+		// such damage; a strict pass reports it, so that OnStart repairs the WAL first.
+		if _, _, serr := cs.wal.SearchForEndHeight(endHeight, &WALSearchOptions{}); IsDataCorruptionError(serr) {
+			return serr
+		}
 		if err := cs.wal.WriteSync(EndHeightMessage{endHeight}); err != nil {
 			return err
 		}
